@@ -168,6 +168,16 @@ func concurrent(w *world, r *rand.Rand, nA, per int, p4 bool) {
 							cs.qers[0] = q
 						}
 					}
+					// an Update PDR of the downlink rule on others (same match key; UP4 rewrites its UE-address books for it),
+					// together with an Update FAR that re-sends the tunnel
+					if rr.Intn(3) == 0 {
+						seq := p.NextSeq()
+						replies, barrier := p.Exchange(sysh.Marshal(message.NewSessionModificationRequest(0, 0, cs.up, seq, 0, dl.Update(), fars[1].Update())), w.wait)
+						mo := sysh.Obs{Alive: barrier, Markers: [][]uint64{}}
+						mo.Decode(replies, seq)
+						evs[a] = append(evs[a], map[string]interface{}{"k": "mod", "a": a, "seid": cs.up, "cp": []int{}, "cf": []int{}, "cq": []int{}, "up": []sysh.PdrIE{dl}, "uf": []sysh.FarIE{fars[1]},
+							"uq": []int{}, "rp": []int{}, "rf": []int{}, "rq": []int{}, "obs": mo, "conc": true})
+					}
 				}
 			}
 		}(a)
